@@ -197,6 +197,11 @@ class ApplyReader(SubsReader):
             if isinstance(v, (list, T, int)):
                 return False
             self.fail(n, "callable() of an unknown object")
+        if f == "isinstance" and len(n.args) == 2:
+            v = self.ev(n.args[0], env, fns)
+            if isinstance(v, _Point):
+                # the point `field.apply` builds for a trajectory in a Cartesian system (the system J8 evaluates with)
+                return bool({"CartesianPoint", "Point"} & set(self.class_names(n.args[1])))
         return super().hook_call(n, env, fns)
 
 
